@@ -286,9 +286,20 @@ class Sched:
                     # the thread neither finished nor yielded: a busy loop (or a stall in C code).  Make it raise.
                     tries += 1
                     self.spins = getattr(self, "spins", 0) + 1
-                    if tries > 3:
-                        sys.stderr.write("machinery failure: thread %s does not yield and cannot be interrupted\n" % self.names[pick])
-                        sys.stderr.flush()
+                    # a thread executing Python code moves; one that sits in a blocking call the scheduler does not control
+                    # (a primitive of the code under test that has no cooperative replacement) does not: that is a limit of
+                    # this machinery, not a finding
+                    import time as _t
+                    seen = set()
+                    for _ in range(20):
+                        fr = sys._current_frames().get(pick)
+                        seen.add((id(fr.f_code), fr.f_lasti) if fr is not None else None)
+                        _t.sleep(0.05)
+                    if len(seen) <= 1 or tries > 3:
+                        fr = sys._current_frames().get(pick)
+                        where = "%s:%d" % (fr.f_code.co_filename, fr.f_lineno) if fr is not None else "?"
+                        sys.stdout.write("machinery failure: thread %s is blocked outside the scheduler's control at %s\n" % (self.names[pick], where))
+                        sys.stdout.flush()
                         os._exit(2)
                     import ctypes
                     ctypes.pythonapi.PyThreadState_SetAsyncExc(ctypes.c_ulong(pick), ctypes.py_object(SpinDetected))
